@@ -215,15 +215,16 @@ IterallFails(e) ==
       Cat[i \in 0..NN] == IF i = 0 THEN <<>> ELSE Cat[i-1] \o Kmers(nodes[i].s, K)
       N == Len(Cat[NN])
       Distinct(q) == Cardinality(SetOf(q)) = Len(q) /\ \A j \in 1..Len(q) : q[j] >= 0 /\ q[j] < N
-      I4 == /\ e.all = Cat[NN] /\ e.lens = [i \in 1..NN |-> NK(K, nodes[i])]
-            \* iter_nodes() and the Node accessors: every node once, in id order, with its own sequence, extensions and payload
-            /\ e.glen = NN /\ e.gempty = (NN = 0) /\ Len(e.via_iter) = NN
+      I4 == e.all = Cat[NN] /\ e.lens = [i \in 1..NN |-> NK(K, nodes[i])]
+      \* iter_nodes() and the Node accessors: every node once, in id order, with its own sequence, extensions and payload
+      \* (beyond the listed properties; reported, never a verdict)
+      I4x == /\ e.glen = NN /\ e.gempty = (NN = 0) /\ Len(e.via_iter) = NN
             /\ \A i \in 1..NN : LET v == e.via_iter[i] IN
                   /\ v.id = i - 1 /\ v.len = Len(nodes[i].s) /\ v.empty = (Len(nodes[i].s) = 0)
                   /\ v.s = nodes[i].s /\ v.l = nodes[i].l /\ v.r = nodes[i].r /\ v.d = nodes[i].d
       \* the graph's k-mers are pairwise distinct, so the iteration visits each exactly once and the MPHF is perfect
       I5 == /\ Len(e.slots) = N /\ Distinct(e.slots) /\ Len(e.pslots) = N /\ Distinct(e.pslots)
-  IN {c \in {"I4", "I5"} : ~(CASE c = "I4" -> I4 [] c = "I5" -> I5)}
+  IN {c \in {"I4", "I4x", "I5"} : ~(CASE c = "I4" -> I4 [] c = "I4x" -> I4x [] c = "I5" -> I5)}
 
 \* ---------------------------------------------------------------- export (C20)
 ExportFails(e) ==
@@ -264,8 +265,10 @@ ExportFails(e) ==
 
 SerdeFails(e) ==
   IF e.panic # "" THEN {"PANIC"} ELSE
-  IF \A i \in 1..Len(e.items) : e.items[i].before = e.items[i].after /\ e.items[i].eq /\ e.items[i].rc_eq
-  THEN {} ELSE {"Z1"}
+  LET Same(i) == e.items[i].before = e.items[i].after /\ e.items[i].eq /\ e.items[i].rc_eq
+      Ext(i) == e.items[i].ty \in {"combine", "combine-mixed"}          \* BaseGraph::combine: beyond the listed properties
+  IN (IF \A i \in 1..Len(e.items) : Ext(i) \/ Same(i) THEN {} ELSE {"Z1"}) \cup
+     (IF \A i \in 1..Len(e.items) : ~Ext(i) \/ Same(i) THEN {} ELSE {"Z2x"})
 
 \* ---------------------------------------------------------------- index (C19)
 IndexFails(e) ==
